@@ -1,0 +1,212 @@
+//go:build verif
+
+package ast_go
+
+// Contracts of the Go front-end (C20), read by /verif/engine. Comment-only; the build tag keeps the file out of
+// ordinary builds. go/ast nodes are plain data: what go/parser guarantees about them (non-nil fields, no nil list
+// entries) is stated once, as trusted type invariants, in /verif/spec/goast.spec.
+
+// the declared name of a parameter / field / interface method (anonymous: "")
+//@ spec FieldName(f *ast.Field) string := len((*f).Names) < 1 ? "" : (*(*f).Names[0]).Name
+
+//@ func getFieldName
+//@ requires field != nil
+//@ ensures result == FieldName(field)
+
+// a qualified type name pkg.Type: the parser accepts nothing but an identifier before the dot in a type position
+//@ func getSelectorName
+//@ requires typeX.X != nil && typeX.Sel != nil && TypeIs(typeX.X, *ast.Ident)
+//@ ensures result == (*typeX.X.(*ast.Ident)).Name + "." + (*typeX.Sel).Name
+
+// *T / *pkg.T in a type position: the name of the base type ("" for anything else)
+//@ spec StarName(e ast.Expr) string := TypeIs(e, *ast.Ident) ? (*e.(*ast.Ident)).Name : (TypeIs(e, *ast.SelectorExpr) ? (*(*e.(*ast.SelectorExpr)).X.(*ast.Ident)).Name + "." + (*(*e.(*ast.SelectorExpr)).Sel).Name : "")
+//@ func getStarExprName
+//@ requires starExpr.X != nil && QualOK(starExpr.X)
+//@ ensures result == StarName(starExpr.X)
+
+// the receiver's type name: T for (t T) and for (t *T)
+//@ spec RecvName(e ast.Expr) string := TypeIs(e, *ast.Ident) ? (*e.(*ast.Ident)).Name : (TypeIs(e, *ast.StarExpr) ? StarName((*e.(*ast.StarExpr)).X) : "")
+//@ func BuildReceiver
+//@ requires x != nil && (*x).Recv != nil
+//@ ensures len((*(*x).Recv).List) == 0 ==> result == recv
+//@ ensures len((*(*x).Recv).List) == 1 && (TypeIs((*(*(*x).Recv).List[0]).Type, *ast.Ident) || TypeIs((*(*(*x).Recv).List[0]).Type, *ast.StarExpr)) ==> result == RecvName((*(*(*x).Recv).List[0]).Type)
+//@ loop 1 invariant #i == 0 ==> recv == old(recv)
+//@ loop 1 invariant #i == 1 && (TypeIs((*(*(*x).Recv).List[0]).Type, *ast.Ident) || TypeIs((*(*(*x).Recv).List[0]).Type, *ast.StarExpr)) ==> recv == RecvName((*(*(*x).Recv).List[0]).Type)
+
+// one property per field, named as given; the type text for the simple type forms
+//@ func BuildPropertyField
+//@ requires field != nil
+//@ ensures result != nil && (*result).ParamName == name
+//@ ensures TypeIs((*field).Type, *ast.Ident) ==> (*result).TypeValue == (*(*field).Type.(*ast.Ident)).Name && (*result).TypeType == "Identify"
+//@ ensures TypeIs((*field).Type, *ast.StarExpr) ==> (*result).TypeValue == StarName((*(*field).Type.(*ast.StarExpr)).X) && (*result).TypeType == "Star"
+
+// C20: every declared name of a parameter / result / method list gets its own entry (a, b int declares two), an
+// anonymous entry gets one
+//@ spec rec NamesIn(fl []*ast.Field, n int) int := n <= 0 ? 0 : NamesIn(fl, n - 1) + (len((*fl[n - 1]).Names) > 1 ? len((*fl[n - 1]).Names) : 1)
+//@ func BuildFieldToProperty
+//@ requires forall i int :: {fieldList[i]} 0 <= i && i < len(fieldList) ==> fieldList[i] != nil
+//@ ensures len(result) == NamesIn(fieldList, len(fieldList))
+//@ ensures forall i int :: {fieldList[i]} 0 <= i && i < len(fieldList) && len((*fieldList[i]).Names) <= 1 ==> result[NamesIn(fieldList, i)].ParamName == FieldName(fieldList[i])
+//@ ensures forall i int, j int :: {(*fieldList[i]).Names[j]} 0 <= i && i < len(fieldList) && len((*fieldList[i]).Names) > 1 && 0 <= j && j < len((*fieldList[i]).Names) ==> result[NamesIn(fieldList, i) + j].ParamName == (*(*fieldList[i]).Names[j]).Name
+//@ loop 1 invariant len(properties) == NamesIn(fieldList, #i) && NamesIn(fieldList, #i) >= 0
+//@ loop 1 invariant forall i int :: {fieldList[i]} 0 <= i && i < #i ==> NamesIn(fieldList, i) >= 0 && NamesIn(fieldList, i + 1) <= len(properties)
+//@ loop 1 invariant forall i int :: {fieldList[i]} 0 <= i && i < #i && len((*fieldList[i]).Names) <= 1 ==> properties[NamesIn(fieldList, i)].ParamName == FieldName(fieldList[i])
+//@ loop 1 invariant forall i int, j int :: {(*fieldList[i]).Names[j]} 0 <= i && i < #i && len((*fieldList[i]).Names) > 1 && 0 <= j && j < len((*fieldList[i]).Names) ==> properties[NamesIn(fieldList, i) + j].ParamName == (*(*fieldList[i]).Names[j]).Name
+//@ loop 2 invariant len(properties) == NamesIn(fieldList, #i1) + #i
+//@ loop 2 invariant forall i int :: {fieldList[i]} 0 <= i && i < #i1 ==> NamesIn(fieldList, i) >= 0 && NamesIn(fieldList, i + 1) <= len(properties)
+//@ loop 2 invariant NamesIn(fieldList, #i1) >= 0
+//@ loop 2 invariant forall i int :: {fieldList[i]} 0 <= i && i < #i1 && len((*fieldList[i]).Names) <= 1 ==> properties[NamesIn(fieldList, i)].ParamName == FieldName(fieldList[i])
+//@ loop 2 invariant forall i int, j int :: {(*fieldList[i]).Names[j]} 0 <= i && i < #i1 && len((*fieldList[i]).Names) > 1 && 0 <= j && j < len((*fieldList[i]).Names) ==> properties[NamesIn(fieldList, i) + j].ParamName == (*(*fieldList[i]).Names[j]).Name
+//@ loop 2 invariant forall j int :: {(*field).Names[j]} 0 <= j && j < #i ==> properties[NamesIn(fieldList, #i1) + j].ParamName == (*(*field).Names[j]).Name
+
+// state of the package: the package record exists from the constructor on
+//@ invariant currentPackage != nil && output != nil
+//@ func NewCocagoParser
+//@ establishes
+//@ modifies currentPackage, output
+
+// statements of a body only add calls to the function being built: its name, parameters and results stay as declared
+//@ func BuildMethodCall
+//@ requires codeFunc != nil && item != nil
+//@ modifies *codeFunc
+//@ ensures (*codeFunc).Name == old((*codeFunc).Name) && (*codeFunc).Parameters == old((*codeFunc).Parameters) && (*codeFunc).MultipleReturns == old((*codeFunc).MultipleReturns)
+//@ ensures len((*codeFunc).FunctionCalls) >= old(len((*codeFunc).FunctionCalls))
+//@ loop 1 invariant (*codeFunc).Name == old((*codeFunc).Name) && (*codeFunc).Parameters == old((*codeFunc).Parameters) && (*codeFunc).MultipleReturns == old((*codeFunc).MultipleReturns) && len((*codeFunc).FunctionCalls) >= old(len((*codeFunc).FunctionCalls))
+//@ loop 2 invariant (*codeFunc).Name == old((*codeFunc).Name) && (*codeFunc).Parameters == old((*codeFunc).Parameters) && (*codeFunc).MultipleReturns == old((*codeFunc).MultipleReturns) && len((*codeFunc).FunctionCalls) >= old(len((*codeFunc).FunctionCalls))
+
+//@ func BuildCallFromExpr
+//@ requires codeFunc != nil && expr != nil
+//@ modifies *codeFunc
+//@ ensures IsQualCall((*expr).Fun) ==> result.NodeName == QualLeft((*expr).Fun) && result.FunctionName == QualRight((*expr).Fun)
+//@ ensures len(result.Parameters) == len((*expr).Args)
+//@ ensures (*codeFunc).Name == old((*codeFunc).Name) && (*codeFunc).Parameters == old((*codeFunc).Parameters) && (*codeFunc).MultipleReturns == old((*codeFunc).MultipleReturns)
+//@ ensures len((*codeFunc).FunctionCalls) >= old(len((*codeFunc).FunctionCalls))
+//@ loop 1 invariant (*codeFunc).Name == old((*codeFunc).Name) && (*codeFunc).Parameters == old((*codeFunc).Parameters) && (*codeFunc).MultipleReturns == old((*codeFunc).MultipleReturns) && len((*codeFunc).FunctionCalls) >= old(len((*codeFunc).FunctionCalls)) && len(call.Parameters) == #i && (IsQualCall((*expr).Fun) ==> call.NodeName == QualLeft((*expr).Fun) && call.FunctionName == QualRight((*expr).Fun))
+//@ loop 2 invariant (*codeFunc).Name == old((*codeFunc).Name) && (*codeFunc).Parameters == old((*codeFunc).Parameters) && (*codeFunc).MultipleReturns == old((*codeFunc).MultipleReturns) && len((*codeFunc).FunctionCalls) >= old(len((*codeFunc).FunctionCalls)) && len(call.Parameters) == #i1 && (IsQualCall((*expr).Fun) ==> call.NodeName == QualLeft((*expr).Fun) && call.FunctionName == QualRight((*expr).Fun))
+
+// C20: a function is listed under its own name with one parameter entry per declared parameter name; a declaration
+// without a body (assembly stub) is listed too
+//@ func BuildFunction
+//@ requires x != nil && file != nil
+//@ ensures result != nil && (*result).Name == (*(*x).Name).Name
+//@ ensures len((*result).Parameters) == NamesIn((*(*(*x).Type).Params).List, len((*(*(*x).Type).Params).List))
+//@ loop 1 invariant true
+//@ loop 2 invariant codeFunc != nil && (*codeFunc).Name == (*(*x).Name).Name && len((*codeFunc).Parameters) == NamesIn((*(*(*x).Type).Params).List, len((*(*(*x).Type).Params).List))
+
+// helpers of the call builders: they read the package state and write nothing
+//@ func getPackageName
+//@ func ParseTarget
+// C20: a call pkg.F(...) / recv.M(...) is read as (selector, "pkg" or "recv", "F" or "M"); a plain name as itself
+//@ spec IsQualCall(e ast.Expr) bool := TypeIs(e, *ast.SelectorExpr) && TypeIs((*e.(*ast.SelectorExpr)).X, *ast.Ident)
+//@ spec QualLeft(e ast.Expr) string := (*(*e.(*ast.SelectorExpr)).X.(*ast.Ident)).Name
+//@ spec QualRight(e ast.Expr) string := (*(*e.(*ast.SelectorExpr)).Sel).Name
+//@ func BuildExpr
+//@ requires expr != nil
+//@ ensures IsQualCall(expr) ==> result0 == "selector" && result1 == QualLeft(expr) && result2 == QualRight(expr)
+//@ ensures TypeIs(expr, *ast.Ident) ==> result0 == "ident" && result1 == (*expr.(*ast.Ident)).Name
+
+//@ func BuildLocalVars
+//@ requires codeFunc != nil && it != nil
+//@ modifies *codeFunc
+//@ ensures (*codeFunc).Name == old((*codeFunc).Name) && (*codeFunc).Parameters == old((*codeFunc).Parameters) && (*codeFunc).MultipleReturns == old((*codeFunc).MultipleReturns)
+//@ ensures len((*codeFunc).FunctionCalls) >= old(len((*codeFunc).FunctionCalls))
+//@ loop 1 invariant (*codeFunc).Name == old((*codeFunc).Name) && (*codeFunc).Parameters == old((*codeFunc).Parameters) && (*codeFunc).MultipleReturns == old((*codeFunc).MultipleReturns) && len((*codeFunc).FunctionCalls) >= old(len((*codeFunc).FunctionCalls))
+//@ loop 2 invariant (*codeFunc).Name == old((*codeFunc).Name) && (*codeFunc).Parameters == old((*codeFunc).Parameters) && (*codeFunc).MultipleReturns == old((*codeFunc).MultipleReturns) && len((*codeFunc).FunctionCalls) >= old(len((*codeFunc).FunctionCalls))
+
+//@ func BuildMethodCallExprStmt
+//@ requires codeFunc != nil && it != nil
+//@ modifies *codeFunc
+//@ ensures (*codeFunc).Name == old((*codeFunc).Name) && (*codeFunc).Parameters == old((*codeFunc).Parameters) && (*codeFunc).MultipleReturns == old((*codeFunc).MultipleReturns)
+//@ ensures len((*codeFunc).FunctionCalls) >= old(len((*codeFunc).FunctionCalls))
+// C20: a call written as a statement is recorded: exactly the calls of function literals among its arguments, then itself
+//@ ensures TypeIs((*it).X, *ast.CallExpr) ==> len((*codeFunc).FunctionCalls) >= old(len((*codeFunc).FunctionCalls)) + 1
+//@ ensures TypeIs((*it).X, *ast.CallExpr) && IsQualCall((*(*it).X.(*ast.CallExpr)).Fun) ==> (*codeFunc).FunctionCalls[len((*codeFunc).FunctionCalls) - 1].NodeName == QualLeft((*(*it).X.(*ast.CallExpr)).Fun) && (*codeFunc).FunctionCalls[len((*codeFunc).FunctionCalls) - 1].FunctionName == QualRight((*(*it).X.(*ast.CallExpr)).Fun)
+
+// C20: an import is listed once, under its path without the quotes, the module prefix and with dots for slashes; the
+// alias is kept
+//@ spec Unquoted(s string) string := s[1:len(s) - 1]
+//@ func BuildImport
+//@ requires x != nil
+//@ ensures result != nil && (*result).AsName == ((*x).Name != nil ? (*(*x).Name).Name : "")
+//@ ensures manager.ProjectName != "" && !Contains(Unquoted((*(*x).Path).Value), manager.ProjectName) && !Contains(Unquoted((*(*x).Path).Value), "/") && !HasPrefix(Unquoted((*(*x).Path).Value), ".") ==> (*result).Source == Unquoted((*(*x).Path).Value)
+
+//@ func setMemberPackageInfo
+//@ requires member != nil && codeFile != nil
+//@ modifies *member
+//@ ensures (*member).DataStructID == old((*member).DataStructID) && (*member).Type == old((*member).Type) && (*member).FunctionNodes == old((*member).FunctionNodes)
+//@ ensures (*member).AliasPackage == (*codeFile).PackageName && (*member).FileID == (*codeFile).FullName
+
+// C20: an interface is listed under the name it is declared with, with one entry per method name, and as one member
+//@ func AddInterface
+//@ requires x != nil && codeFile != nil
+//@ modifies *codeFile
+//@ ensures result.NodeName == ident && len(result.InOutProperties) == NamesIn((*(*x).Methods).List, len((*(*x).Methods).List))
+//@ ensures len((*codeFile).Members) == old(len((*codeFile).Members)) + 1 && Extends((*codeFile).Members, old((*codeFile).Members), 1)
+//@ ensures (*codeFile).Members[len((*codeFile).Members) - 1].DataStructID == ident && (*codeFile).Members[len((*codeFile).Members) - 1].Type == "interface"
+//@ ensures (*codeFile).Imports == old((*codeFile).Imports) && (*codeFile).DataStructures == old((*codeFile).DataStructures) && (*codeFile).Fields == old((*codeFile).Fields) && (*codeFile).PackageName == old((*codeFile).PackageName) && (*codeFile).FullName == old((*codeFile).FullName)
+
+// C20: a function declaration is listed under its own name; without a receiver it becomes exactly one member of the file
+// (holding exactly that function), with a receiver it is handed back with the receiver's type name
+//@ func AddFunctionDecl
+//@ requires x != nil && currentFile != nil
+//@ modifies *currentFile
+//@ ensures result0 != nil && (*result0).Name == (*(*x).Name).Name
+//@ ensures len((*result0).Parameters) == NamesIn((*(*(*x).Type).Params).List, len((*(*(*x).Type).Params).List))
+//@ ensures (*x).Recv == nil ==> result1 == ""
+//@ ensures (*x).Recv != nil && len((*(*x).Recv).List) == 1 && (TypeIs((*(*(*x).Recv).List[0]).Type, *ast.Ident) || TypeIs((*(*(*x).Recv).List[0]).Type, *ast.StarExpr)) ==> result1 == RecvName((*(*(*x).Recv).List[0]).Type)
+//@ ensures result1 == "" ==> len((*currentFile).Members) == old(len((*currentFile).Members)) + 1 && Extends((*currentFile).Members, old((*currentFile).Members), 1) && (*currentFile).Members[len((*currentFile).Members) - 1].DataStructID == "default" && len((*currentFile).Members[len((*currentFile).Members) - 1].FunctionNodes) == 1 && (*currentFile).Members[len((*currentFile).Members) - 1].FunctionNodes[0].Name == (*(*x).Name).Name
+//@ ensures result1 != "" ==> (*currentFile).Members == old((*currentFile).Members)
+//@ ensures (*currentFile).Imports == old((*currentFile).Imports) && (*currentFile).DataStructures == old((*currentFile).DataStructures) && (*currentFile).Fields == old((*currentFile).Fields) && (*currentFile).PackageName == old((*currentFile).PackageName) && (*currentFile).FullName == old((*currentFile).FullName)
+
+// C20: a struct is listed as one member under its own name, and its entry (when the type declaration created one) gets
+// one property per declared field name
+//@ func AddStructType
+//@ requires x != nil && currentFile != nil && dsMap != nil
+//@ requires forall k string :: {dsMap[k]} (k in dsMap) && dsMap[k] != nil ==> Allocated(dsMap[k])
+//@ modifies *currentFile, *dsMap[currentNodeName]
+//@ ensures len((*currentFile).Members) == old(len((*currentFile).Members)) + 1 && Extends((*currentFile).Members, old((*currentFile).Members), 1)
+//@ ensures (*currentFile).Members[len((*currentFile).Members) - 1].DataStructID == currentNodeName && (*currentFile).Members[len((*currentFile).Members) - 1].Type == "struct"
+//@ ensures (*currentFile).Imports == old((*currentFile).Imports) && (*currentFile).DataStructures == old((*currentFile).DataStructures) && (*currentFile).Fields == old((*currentFile).Fields) && (*currentFile).PackageName == old((*currentFile).PackageName) && (*currentFile).FullName == old((*currentFile).FullName)
+//@ ensures dsMap[currentNodeName] != nil ==> len((*dsMap[currentNodeName]).InOutProperties) == NamesIn((*(*x).Fields).List, len((*(*x).Fields).List))
+//@ ensures dsMap[currentNodeName] != nil ==> (*dsMap[currentNodeName]).NodeName == old((*dsMap[currentNodeName]).NodeName) && (*dsMap[currentNodeName]).Functions == old((*dsMap[currentNodeName]).Functions)
+//@ loop 1 invariant member != nil && (*member).DataStructID == currentNodeName && (*member).Type == "struct" && len(ioproperties) == NamesIn((*(*x).Fields).List, #i)
+//@ loop 2 invariant member != nil && (*member).DataStructID == currentNodeName && (*member).Type == "struct" && len(ioproperties) == NamesIn((*(*x).Fields).List, #i1) + #i
+
+// The visit callback. State of the walk (captured variables of Visitor): the table of declared types never holds a nil
+// entry and never the address of the scratch variable currentStruct, so that starting the next type cannot change a
+// type already listed (C20: "each struct ... under their own names and exactly once").
+//@ spec TSName(node ast.Node) string := (*(*node.(*ast.TypeSpec)).Name).Name
+//@ spec FDName(node ast.Node) string := (*(*node.(*ast.FuncDecl)).Name).Name
+//@ spec FDRecv(node ast.Node) string := RecvName((*(*(*node.(*ast.FuncDecl)).Recv).List[0]).Type)
+//@ spec HasRecv(node ast.Node) bool := TypeIs(node, *ast.FuncDecl) && (*node.(*ast.FuncDecl)).Recv != nil && len((*(*node.(*ast.FuncDecl)).Recv).List) == 1 && (TypeIs((*(*(*node.(*ast.FuncDecl)).Recv).List[0]).Type, *ast.Ident) || TypeIs((*(*(*node.(*ast.FuncDecl)).Recv).List[0]).Type, *ast.StarExpr)) && FDRecv(node) != ""
+//@ closure CocagoParser.Visitor$1
+//@ requires *dsMap != nil && *n != nil
+//@ requires forall k string :: {(*dsMap)[k]} (k in *dsMap) ==> (*dsMap)[k] != nil && (*dsMap)[k] != currentStruct && Allocated((*dsMap)[k])
+//@ requires forall k1 string, k2 string :: {(*dsMap)[k1], (*dsMap)[k2]} (k1 in *dsMap) && (k2 in *dsMap) && k1 != k2 ==> (*dsMap)[k1] != (*dsMap)[k2]
+//@ modifies *
+//@ ensures result
+//@ ensures *dsMap != nil
+//@ ensures forall k1 string, k2 string :: {(*dsMap)[k1], (*dsMap)[k2]} (k1 in *dsMap) && (k2 in *dsMap) && k1 != k2 ==> (*dsMap)[k1] != (*dsMap)[k2]
+//@ ensures forall k string :: {(*dsMap)[k]} (k in *dsMap) ==> (*dsMap)[k] != nil && (*dsMap)[k] != currentStruct && Allocated((*dsMap)[k])
+// a type declaration starts a fresh entry under the declared name; the types listed so far are not touched
+//@ ensures TypeIs(node, *ast.TypeSpec) ==> (TSName(node) in *dsMap) && (*(*dsMap)[TSName(node)]).NodeName == TSName(node)
+//@ ensures TypeIs(node, *ast.TypeSpec) ==> (forall k string :: {(*dsMap)[k]} (k in old(*dsMap)) && k != TSName(node) ==> (k in *dsMap) && (*dsMap)[k] == old((*dsMap)[k]) && *(*dsMap)[k] == old(*(*dsMap)[k]))
+// a method is attached to the entry of its receiver's type, whether or not that type has been met yet
+//@ ensures HasRecv(node) ==> (FDRecv(node) in *dsMap) && len((*(*dsMap)[FDRecv(node)]).Functions) >= 1 && (*(*dsMap)[FDRecv(node)]).Functions[len((*(*dsMap)[FDRecv(node)]).Functions) - 1].Name == FDName(node)
+//@ ensures HasRecv(node) && (FDRecv(node) in old(*dsMap)) ==> len((*(*dsMap)[FDRecv(node)]).Functions) == old(len((*(*dsMap)[FDRecv(node)]).Functions)) + 1 && (*(*dsMap)[FDRecv(node)]).NodeName == old((*(*dsMap)[FDRecv(node)]).NodeName)
+//@ ensures HasRecv(node) ==> (forall k string :: {(*dsMap)[k]} (k in old(*dsMap)) && k != FDRecv(node) ==> (k in *dsMap) && (*dsMap)[k] == old((*dsMap)[k]) && *(*dsMap)[k] == old(*(*dsMap)[k]))
+// a function without receiver becomes one member of the file
+//@ ensures TypeIs(node, *ast.FuncDecl) && (*node.(*ast.FuncDecl)).Recv == nil ==> len((*currentFile).Members) == old(len((*currentFile).Members)) + 1 && (*currentFile).Members[len((*currentFile).Members) - 1].FunctionNodes[0].Name == FDName(node) && *dsMap == old(*dsMap)
+// an import adds exactly one import
+//@ ensures TypeIs(node, *ast.ImportSpec) ==> len((*currentFile).Imports) == old(len((*currentFile).Imports)) + 1 && *dsMap == old(*dsMap)
+
+//@ method CocagoParser.SetOutput
+//@ requires out != nil
+//@ modifies output
+
+// the walk starts with an empty table of types: the callback's precondition holds at the first visit (ast.Inspect calls
+// nothing but the callback, one node after the other: trusted), and every visit re-establishes it
+//@ method CocagoParser.Visitor
+//@ requires f != nil && n != nil
+//@ assert before Inspect#1 dsMap != nil && (forall k string :: {k in dsMap} !(k in dsMap))
+//@ loop 1 invariant true
